@@ -989,9 +989,10 @@ func exec(e *lp.Exec) {
 				key.WriteString("n,")
 				continue
 			}
-			if s.taskState() == "read" && (fl != evIn || s.mode != "et") {
+			if s.taskState() == "read" && (fl&evIn == 0 || fl&evOut != 0 || s.mode != "et") {
 				// the parked task sits inside its read, i.e. inside the conn mutex: a poller that needs the
-				// mutex (close, flush) would simply wait for it; such a report is not delivered now
+				// mutex (close on an error-only event, flush) would simply wait for it; such a report is not
+				// delivered now (an event with IN only goes through the gate, also with a hang-up flag)
 				s.state(e, "busy")
 				key.WriteString("b,")
 				continue
